@@ -15,7 +15,7 @@ from vlib import log
 
 PROP = "C05"
 QUICK_BASES = [2, 3, 7, 8, 10, 12, 16, 32, 36]
-FAMILIES = ("GenSmall", "GenBoundary", "GenPeriod", "GenMagnitude")
+FAMILIES = ("GenSmall", "GenBoundary", "GenPeriod", "GenMagnitude", "GenBig")
 
 
 def numeral_selftest(run):
@@ -27,12 +27,13 @@ def numeral_selftest(run):
                                  "digit conversion agrees with BigNum in bases 2..36")
 
 
-def gen_cases(tag, bases, seed, smallmax, maxk, stride_cheap, stride_mid, stride_long, stride_neg, workers=4):
+def gen_cases(tag, bases, seed, smallmax, maxk, stride_cheap, stride_mid, stride_long, stride_neg, bigks, stride_big, workers=4):
     cfg = vlib.workfile("NumGen_%s.cfg" % tag)
     with open(cfg, "w") as f:
         f.write("SPECIFICATION Spec\nINVARIANT Emit\nCHECK_DEADLOCK FALSE\nCONSTANTS\n")
         f.write("  Bases = {%s}\n  Seed = %d\n  SmallMax = %d\n  MaxK = %d\n" % (", ".join(map(str, bases)), seed % 1000, smallmax, maxk))
         f.write("  StrideCheap = %d\n  StrideMid = %d\n  StrideLong = %d\n  StrideNeg = %d\n" % (stride_cheap, stride_mid, stride_long, stride_neg))
+        f.write("  BigKs = {%s}\n  StrideBig = %d\n" % (", ".join(map(str, bigks)), stride_big))
     r = vlib.tlc("MC_NumGen", cfg, workers=workers, timeout=3000, coverage=True, tag="gen" + tag, xmx="8g")
     vlib.require_ok(r, "MC_NumGen")
     for a in FAMILIES:
@@ -158,7 +159,7 @@ def run(tier, seed):
     run = vlib.Run(PROP, tier, seed, "model_checking")
     thorough = tier == "thorough"
     run.cov["rule"] = ("TLC (MC_NumGen) enumerates p/q x base x digits modes: lowest-terms p/q up to SmallMax, (b^k+-1)/(b^j+-1) for k, j <= 12, "
-                       "denominators of period 1..982 and 1000003, magnitudes across the 1e9/1e-9 notation switch, negatives by stride; default mode "
+                       "denominators of period 1..982 and 1000003, (a^k+-1)/(c^j+-1) of hundreds to thousands of bits, magnitudes across the 1e9/1e-9 notation switch, negatives by stride; default mode "
                        "for every value, the other modes by seed-rotated strides. non-trivial = distinct (p, q, base, mode, N) other than a "
                        "single-digit integer in default mode.")
     run.assumptions += ["harness trusted for: string <-> code points, num-bigint <-> base-4096 limbs, building the query text p/q -> mode base",
@@ -169,9 +170,9 @@ def run(tier, seed):
     numeral_selftest(run)
     shards = 14 if thorough else 8
     if thorough:
-        cases, r = gen_cases("c05", list(range(2, 37)), seed, 72, 12, 3, 20, 150, 3, workers=6)
+        cases, r = gen_cases("c05", list(range(2, 37)), seed, 72, 12, 3, 20, 150, 3, [64, 300, 1000], 3, workers=6)
     else:
-        cases, r = gen_cases("c05", QUICK_BASES, seed, 40, 12, 6, 80, 600, 3)
+        cases, r = gen_cases("c05", QUICK_BASES, seed, 40, 12, 6, 80, 600, 3, [64, 300], 20)
     run.add_tlc(r, "MC_NumGen")
     jobs = jobs_of(cases, query_every=1 if thorough else 2)
     long_jobs = [j for j in jobs if j["mode"] == "full" or (j["mode"] == "digits" and j["n"] >= 50)]
